@@ -109,6 +109,15 @@ class TimedTrace(TraceUnit):
         p = run_h(ctx, [self.command, "-seed", str(ctx.seed), "-out", tr] + [str(a) for a in args], timeout=self.timeout)
         self.info["recorder"] = (p.stdout or "").strip()[-300:]
         if p.returncode != 0:
+            from lib.units import classify_crash
+            crash = classify_crash(p.stderr or "")
+            if crash:   # a Go panic / fatal error whose first frame outside the runtime lies in hive.go = behaviour of the code under test
+                save = os.path.join(ctx.out, self.name.replace(":", "_") + ".crash.txt")
+                with open(save, "w") as fh:
+                    fh.write(p.stderr)
+                ctx.violation(self.name, "Timed:crash:%s" % crash[:60],
+                              "the real code crashed under the driver: %s (see %s)" % (crash, save), {"kind": "crash", "report": p.stderr[-6000:]})
+                return
             raise Inconclusive("recorder %s died: %s" % (self.command, (p.stderr or p.stdout)[-2000:]))
         m = re.search(r'"discarded": (\d+)', p.stdout or "")
         if m and int(m.group(1)):
